@@ -24,7 +24,11 @@ TRUSTED = [
     "graph-theoretic reading of the property: 'one simple cycle' = every vertex has 0 or 2 active incident edges and the active "
     "edges are connected (two parallel active edges form a 2-cycle); 'one simple path with >= 1 edge' = degrees <= 2, connected, "
     "exactly two vertices of degree 1; 'visited' = positive active degree",
-    "z3 (used in search only, on the really posted constraints) and harness/graphcap.py oracles",
+    "z3 (used in search only, on the really posted constraints) and harness/graphcap.py oracles; before the constraints are "
+    "handed to z3 the harness replaces BOOL_CONSTANT / INT_CONSTANT nodes by the literal they hold (pC06.unconst), so that the "
+    "search does not depend on the z3 backend's translation of constant nodes (property C01)",
+    "Python's set iteration order in Graph.line_graph is not modelled: the model lists the pairs in lexicographic order and "
+    "the theorems use membership only",
 ]
 ASSUMPTIONS = [
     "graphs are well-formed (endpoints in [0, n), built with Graph.add_edge with non-negative ints) and, for the theorems, have at least one vertex "
